@@ -85,7 +85,7 @@ def run(ctx):
     known = K.known_ids(ctx.pid)
     oracle_hits = {}
     if not c.err:
-        for i, what, sig in S.history_oracle(c.ops, c.impl):
+        for i, what, sig in S.history_oracle(c.ops, c.impl, api_validates=facts.get("apiValidatesKeys") == "yes"):
             oracle_hits.setdefault(sig, []).append((i, what))
     for sig, hits in oracle_hits.items():
         i, what = hits[0]
